@@ -362,7 +362,20 @@ impl Engine for C17 {
                     let a = Model::addr_of(&ctx, AddrRef { algo, blob: w.blob });
                     model.adopt_content(&ctx, &a);
                     if let Some(k) = w.key {
-                        model.set_entry(ctx.key(k), Some(Entry { integrity: sri, size: size as u64, time: TimeSpec::Exact(time), metadata, raw_metadata: raw }));
+                        model.set_entry(ctx.key(k), Some(Entry { integrity: sri.clone(), size: size as u64, time: TimeSpec::Exact(time), metadata: metadata.clone(), raw_metadata: raw.clone() }));
+                        // every third keyed entry is recorded once more the way other writers spell
+                        // a two-hash integrity: the WEAKER hash first (the strongest one addresses
+                        // the content, whatever the order in the text)
+                        if let (Some(weak), true) = (crate::exec::weaker_algo(algo), i % 3 == 0) {
+                            let text = format!("{} {}", blob::sri(weak, &data), sri);
+                            let time2 = if time == u128::MAX { time - 1 } else { time + 1 };
+                            let rec = reffmt::Rec { key: ctx.key(k).to_string(), integrity: Some(text.clone()), time: time2, size: size as u128, metadata: reffmt::Json::from_value(&metadata), raw_metadata: raw.clone() };
+                            let bucket = reffmt::bucket_path(&ctx.cache, ctx.key(k));
+                            let mut f = std::fs::OpenOptions::new().append(true).open(&bucket).map_err(|e| format!("INFRA: {e}"))?;
+                            f.write_all(&reffmt::encode_record(&rec, reffmt::EmitStyle { ascii, reversed })).map_err(|e| format!("INFRA: {e}"))?;
+                            model.set_entry(ctx.key(k), Some(Entry { integrity: blob::sri_canon(&text).unwrap(), size: size as u64, time: TimeSpec::Exact(time2), metadata, raw_metadata: raw }));
+                            st.class("two_hash_integrity_weaker_first");
+                        }
                     }
                     wrote += 1;
                 }
